@@ -86,6 +86,9 @@ def invoke(c, mode=None, opt=None, variant='plain'):
                 toks = None
                 break
             op, data, nxt = e
+            if op == 0xff:
+                toks = None         # (the escape OP_xff is not assembled to the byte 0xff - known finding C07-xff; keep the hex form for such scripts)
+                break
             if data is None or op == 0:
                 toks.append('OP_x%02x' % op)
             elif len(data) >= 5 and R.push_enc(data) == c['script'][pos:nxt]:
